@@ -9,6 +9,17 @@ open Lean
 
 def allowed : List Name := [``propext, ``Classical.choice, ``Quot.sound]
 
+/-- theorems the compiler derives from `inductive` / `structure` declarations (constructor injectivity,
+    `sizeOf` specs, projections of Prop-valued structures, equation lemmas): audited for axioms like
+    every other theorem, but flagged so they are not counted as stated theorems -/
+def isGenerated (env : Environment) (n : Name) : Bool :=
+  env.isProjectionFn n ||
+  (match n with
+   | .str _ s => s == "inj" || s == "injEq" || s == "sizeOf_spec" || s == "eq_def" || s == "induct" ||
+                 s == "induct_unfolding" || s == "fun_cases" || s == "fun_cases_unfolding" ||
+                 (s.startsWith "eq_" && (s.drop 3).all Char.isDigit)
+   | _ => false)
+
 def auditModule (env : Environment) (mod : Name) : IO (Nat × Nat) := do
   let some idx := env.getModuleIdx? mod | throw (IO.userError s!"module {mod} not found")
   let mut total := 0
@@ -25,7 +36,7 @@ def auditModule (env : Environment) (mod : Name) : IO (Nat × Nat) := do
       let extra := axs.toList.filter (fun a => !allowed.contains a)
       if !extra.isEmpty then bad := bad + 1
       let axsS := ", ".intercalate (axs.toList.map (fun a => s!"\"{a}\""))
-      IO.println s!"\{\"module\":\"{mod}\",\"theorem\":\"{n}\",\"axioms\":[{axsS}],\"ok\":{extra.isEmpty}}"
+      IO.println s!"\{\"module\":\"{mod}\",\"theorem\":\"{n}\",\"axioms\":[{axsS}],\"ok\":{extra.isEmpty},\"generated\":{isGenerated env n}}"
     | _ => pure ()
   return (total, bad)
 
